@@ -756,7 +756,9 @@ def stepRepl (st : State) (toks : List String) : State × String :=
 /-- protocol scripts with the A-Repl explanation of every step (`Driver/AReplSim.lean`) -/
 def stepReplTracked (st : State) (toks : List String) : State × String :=
   match toks with
-  | ["p.astat"] => (st, match st.track with | some t => AReplSim.status t | none => "arepl none")
+  | ["p.astat"] =>
+    if st.world.nodes.length == 0 then (st, "bad-op") else
+    (st, match st.track with | some t => AReplSim.status t | none => "arepl none")
   | _ =>
   let (st', out) := stepRepl st toks
   if out == "bad-op" then (st', out) else
